@@ -68,6 +68,9 @@ func richTree() fsmodel.Tree {
 		return fsmodel.Node{Path: p, Kind: fsmodel.File, Perm: 0640, UID: 9, GID: 9, Mtime: fsmodel.T0 + int64(600+seed), Data: fsmodel.Content(seed, 33), HL: hl}
 	}
 	t = append(t, g("h1", 1, 1), g("d/h2", 1, 1), g("e/h3", 1, 1), g("e/k1", 2, 2), g("k2", 2, 2))
+	// file capabilities (the kernel drops security.capability on chown, so order matters)
+	t = append(t, fsmodel.Node{Path: "capfile", Kind: fsmodel.File, Perm: 0755, Mtime: fsmodel.T0 + 720, Data: []byte("cap"),
+		Xattrs: map[string]string{"security.capability": "\x01\x00\x00\x02\x00\x04\x00\x00\x00\x00\x00\x00\x00\x00\x00\x00\x00\x00\x00\x00"}})
 	// directories without any execute bit (symbolic X must still treat them as directories)
 	t = append(t, fsmodel.Node{Path: "nx", Kind: fsmodel.Dir, Perm: 0644, Mtime: fsmodel.T0 + 710}, fsmodel.Node{Path: "nx/f", Kind: fsmodel.File, Perm: 0600, Mtime: fsmodel.T0 + 711, Data: []byte("nx")},
 		fsmodel.Node{Path: "d/nx2", Kind: fsmodel.Dir, Perm: 0600, Mtime: fsmodel.T0 + 712})
